@@ -82,7 +82,7 @@ CHECKS['C12'] = dict(
    technique='PlusCal protocol models checked by TLC, the SkipList graph replayed edge-complete on the real skip list with per-step state comparison, TLC validation of recorded real histories (incl. traversals) against SetAbs',
    design='4 (C12)')
 CHECKS['C13'] = dict(
-   text='TLC model-checks PQBatch - a transcription of handle_operations / heapify / reheap (what one batch of aggregated operations does to the heap array: first-pass pushes and shortcut pops, deferred pops, reheap, final heapify) over every array of <= 6 elements of 3 values and every batch of <= 3 operations (thorough: 7 / 4 / 3): the array is a heap again, nothing lost or invented, the results are those of some order of the batch - and EVERY transition of that graph is applied to the REAL concurrent_priority_queue by calling its handle_operations on a hand-built operation list (array and mark set white-box); the real outcome is validated by TLC (TracePQBatch, the verdict) and compared with the transcription (drift). TLC model-checks Aggregator (pending-stack CAS push, first pusher becomes handler, handler_busy hand-over, two-pass batch handler): every operation '
+   text='TLC model-checks PQBatch - a transcription of handle_operations / heapify / reheap (what one batch of aggregated operations does to the heap array: first-pass pushes and shortcut pops, deferred pops, reheap, final heapify) over every array of <= 6 elements of 3 values and every batch of <= 3 operations (thorough: 7 / 4 / 3): the array is a heap again, nothing lost or invented, the results are those of some order of the batch - and EVERY transition of that graph is applied to the REAL concurrent_priority_queue by calling its handle_operations on a hand-built operation list (array and mark set white-box); the real outcome is validated by TLC (TracePQBatch, the verdict) and compared with the transcription (drift). TLC model-checks AggrCore (aggregator_generic::execute / start_handle_operations at shared-access granularity: status load, pending load, next store, CAS push, handler_busy spin / set, exchange of the list, per-operation next load and status store, release of handler_busy; 2x2, 3x1, thorough 3x2 operations: one handler at a time, every operation handled exactly once, a caller returns only after its operation was handled, nothing pending at quiescence) and replays EVERY edge on the real aggregator_generic template (operations from a tracked pool), comparing pending / handler_busy / every next and status word per step, TraceAggr as verdict. TLC model-checks Aggregator (pending-stack CAS push, first pusher becomes handler, handler_busy hand-over, two-pass batch handler): every operation '
         'handled exactly once, one handler at a time, no deadlock, conservation. Histories of the real concurrent_priority_queue (push/try_pop, duplicates, '
         'monotone runs, the k-th element copy throwing) under seeded random cooperative schedules are checked by TLC for linearizability against PQAbs '
         '(a generic linearization search: a pop returns a maximum of the contents at its point, fails only when empty, a throwing copy fails only its own push).',
@@ -181,7 +181,7 @@ CHECKS['C16'] = dict(
    technique='function transcription checked by TLC and replayed transition-complete on the real batch handler (TLC trace validation of the real outcomes) + TLA+ function specification checked by TLC + TLC trace validation of the real market and of real arenas (externals and RML workers under the cooperative scheduler)',
    design='4 (C16), 6.11')
 CHECKS['C14'] = dict(
-   text='The abstract specification FlowAbs gives every node the sets of messages offered to it (accepted external puts, puts in flight, outputs of its predecessors - '
+   text='AggrCore (the aggregator that serialises every function_input / buffer operation; see C13) is model-checked and replayed edge-complete on the real aggregator_generic. The abstract specification FlowAbs gives every node the sets of messages offered to it (accepted external puts, puts in flight, outputs of its predecessors - '
         'a forwarding node passes on what it was offered), begun, running and done: a body begins only on an offered message, at most once per node, within the node\'s '
         'concurrency limit, and not after an exception has surfaced; a put that was reported as rejected was not processed; wait_for_all returns only when no body runs '
         'and, in a loss-less graph, everything offered to every body node has been processed. Real graphs (three-node function chains with unlimited / serial / limit-2 / '
